@@ -263,4 +263,35 @@ def vCssTextP (pf : SPrefs) (re : REnv) (il : Nat) (s : Vars) : Cps :=
   if s.seq.length > 0 then stripKeepEsc (outValue (vOutLoop pf re il s.seq []))
   else []
 
+/-! ## the items a written block consists of (what the block parser splits the text into) -/
+
+/-- the name of a declaration as written (the text before the colon) -/
+def nameText (pf : SPrefs) (p : Pty) : Cps := (p.nameSeq.map (namePartText pf p)).flatten
+/-- the priority as written (the text from `!` on) -/
+def prioText (pf : SPrefs) (p : Pty) : Cps := (p.prioSeq.map (prioPartTextP pf p)).flatten
+/-- the text between the colon and the priority / the end of the declaration -/
+def valueField (pf : SPrefs) (re : REnv) (p : Pty) : Cps :=
+  pf.propertyNameSpacer ++ re.vtext p.val ++ (if p.prioSeq != [] then [32] else [])
+
+/-- the source items (as the block parser splits the text) of one written item -/
+def srcOfItem (pf : SPrefs) (re : REnv) : Item → List SrcItem
+  | .comment t => if pf.keepComments then [.comment (commentText pf t)] else []
+  | .prop p =>
+    if propTextP pf re p != [] then [.decl (nameText pf p) (valueField pf re p) (prioText pf p)] else []
+  | .other _ => []
+
+def srcOf (pf : SPrefs) (re : REnv) (l : List Item) : List SrcItem := l.flatMap (srcOfItem pf re)
+
+/-- the items of a variables block as they are written: names as `varNameText` writes them, comments only when kept -/
+def vWritten (pf : SPrefs) : List VItem → List VItem
+  | [] => []
+  | .var n v :: r => .var (varNameText pf n) v :: vWritten pf r
+  | .other t :: r => if pf.keepComments then .other (commentText pf t) :: vWritten pf r else vWritten pf r
+
+/-- the item sequence the grammar returns for the written block: IDENT and value per variable, comments -/
+def vSrcOf : List VItem → List VSrc
+  | [] => []
+  | .var n v :: r => .ident n :: .value v :: vSrcOf r
+  | .other t :: r => .other t :: vSrcOf r
+
 end CssVerif.Decl
